@@ -877,6 +877,33 @@ fn run_term(eng: Eng, s: &mut Src, ctx: &mut Ctx) -> Verdict {
         all_fired.push(fired);
     }
 
+    // no-loop in the two engines that keep their "fired" markers in the fact base: between resets a no-loop rule fires
+    // at most once, over all fire_all calls of the case - unless ANOTHER rule's action removes its marker (that is the
+    // user taking the record away; a rule's own action runs before its marker is written and cannot do that)
+    if eng != Eng::Incr && case.second != Some(true) {
+        for (i, r) in case.rules.iter().enumerate() {
+            if !r.no_loop || case.rules.iter().enumerate().any(|(j, o)| j != i && o.act == Act::Unfire(i)) {
+                continue;
+            }
+            let name = format!("r{}", i);
+            let total: usize = all_fired.iter().map(|f| f.iter().filter(|x| **x == name).count()).sum();
+            if total > 1 {
+                return Verdict::fail(
+                    "no-loop-refire-without-reset",
+                    format!(
+                        "no-loop rule {} fired {} times over {} fire_all call(s) with no reset in between and no other rule removing its marker; firings per call {:?}",
+                        name,
+                        total,
+                        all_fired.len(),
+                        all_fired
+                    ),
+                );
+            }
+            if total == 1 && all_fired.len() == 2 && r.act == Act::Unfire(i) {
+                ctx.label("no-loop-rule-removing-its-own-marker-stayed-fired");
+            }
+        }
+    }
     // classification
     let mut looper_fired = false;
     for fired in &all_fired {
